@@ -64,16 +64,26 @@ def main():
         suite_line = lines[-1].strip() if lines else 'no summary'
         fails = sorted(set(l.split('] ')[-1].strip() for l in outs.splitlines() if l.strip().startswith('FAIL')))
         suite_ok = ('564 passed' in suite_line) and all('ssao_bias' in f for f in fails)
-        if not suite_ok and ('563 passed' in suite_line or '562 passed' in suite_line) and all('ssao_bias' in f or 'tree_import_cache' in f or 'tree_import_nocache' in f for f in fails):
-            # tree_import_cache compares two wall-clock durations and fails
-            # now and then on a loaded machine: run it alone, up to 3 times
-            for _ in range(3):
-                rct, outt = sh('cargo nextest run -p fidget-core --offline --build-jobs 8 tree_import_', cwd=wt)
-                if rct == 0:
-                    suite_ok = True
-                    suite_line += ' (tree_import_*cache: wall-clock tests, passed when re-run alone)'
-                    break
-        print(f'[changed]   suite: {suite_line} fails={fails}')
+        FLAKY = {'tree_import_cache': ('fidget-core', 'tree_import_'), 'tree_import_nocache': ('fidget-core', 'tree_import_'),
+                 'small_linear': ('fidget-solver', 'small_linear')}
+        others = [f for f in fails if 'ssao_bias' not in f]
+        if not suite_ok and others and all(any(k in f for k in FLAKY) for f in others) and re.search(r'56[0-3] passed', suite_line):
+            # wall-clock comparisons (tree_import_*cache) and a test on
+            # rand::random matrices (small_linear) fail now and then on the
+            # unchanged tree as well: run them alone, up to 3 times each
+            ok_all = True
+            for f in others:
+                crate, filt = next(v for k, v in FLAKY.items() if k in f)
+                ok = False
+                for _ in range(3):
+                    rct, outt = sh(f'cargo nextest run -p {crate} --offline --build-jobs 8 {filt}', cwd=wt)
+                    if rct == 0:
+                        ok = True
+                        break
+                ok_all = ok_all and ok
+            if ok_all:
+                suite_ok = True
+                suite_line += ' (known flaky tests passed when re-run alone: ' + ', '.join(others) + ')'
     sh('git reset -q --hard && git clean -qfd -e target', cwd=wt)
     confirmed = rc0 == 0 and rc1 != 0 and (suite_ok is not False)
     results = {}
